@@ -61,6 +61,14 @@ def build(tier: str, rng: random.Random):
     for o in calcheck.sample_scripts(ops, 60 if tier == "quick" else 600, rng):
         lu = random_lineup(rng, rng.randint(1, 6))
         scripts.append(calcheck.to_script(o, {**base, "lineup": lu, "E": 1}, seed=rng.randrange(1, 10**6)))
+    # the position of the round-robin scheduler must follow the batches that were *completed*: a batch aborted by a fault is
+    # produced again by the same sampler (TLC behaviours with a fault at every invocation index, followed by further calls)
+    bf = calcfg.config("Gen_C11")
+    of = [o for o in calcheck.maximal(calcheck.tlc_scripts("Gen_C11")) if any(x[0] == "fault" for x in o)]
+    n_avail += len(of)
+    for o in calcheck.sample_scripts(of, 60 if tier == "quick" else 600, rng):
+        lu = calcfg.LU["ABA"] if rng.random() < 0.5 else bf["lineup"]
+        scripts.append(calcheck.to_script(o, {**bf, "lineup": lu}, seed=rng.randrange(1, 10**6), saving=rng.random() < 0.5))
     # RL scheduler: every agent choice sequence
     for gen, k in (("Gen_C09_rl", 70 if tier == "quick" else 115), ("Gen_C09_rl2", 50 if tier == "quick" else 400)):
         b = calcfg.config(gen)
